@@ -18,8 +18,8 @@ from . import harness, printer as P, sast as A
 V, I, S = A.Var, A.Int, A.Str
 pr = A.pr
 
-QUICK = [0, 1, 2, 3, 7, 8, 9, 15, 16, 17, 31, 32, 33, 63, 64, 65, 127, 128, 129, 255, 256, 257, 300]
-THOROUGH = QUICK + [4, 5, 6, 10, 24, 48, 100, 200, 511, 512, 513, 1000, 1023, 1024, 1025, 2047, 2048, 2049]
+QUICK = list(range(0, 41)) + [63, 64, 65, 100, 127, 128, 129, 255, 256, 257, 300]
+THOROUGH = list(range(0, 140)) + [200, 255, 256, 257, 300, 511, 512, 513, 1000, 1023, 1024, 1025, 2047, 2048, 2049]
 
 
 def loop(var, n, body):
@@ -136,6 +136,7 @@ def obj_literal(n):
         last = order[-1]
         st += [pr(A.Index(V("o"), S(key(n - 1)))), pr(A.Prop(V("o"), key(last), False)),
                A.Declare(A.ObjectE([A.Pair(S(key(0)), V("z")), A.Single(V("others"), False, True)]), V("o")), pr(V("z"))] + counted("others", V("others"))
+        st += [A.Declare(A.ObjectE([A.Pair(S(key(n - 1)), V("zl")), A.Pair(S(key(n // 2)), V("zm")), A.Single(V("others2"), False, True)]), V("o")), pr(V("zl")), pr(V("zm")), pr(V("others2"))]
         st += [A.Assign(A.Index(V("o3"), S(key(last))), I(-5)), pr(A.Bin("==", V("o"), V("o3")))]
         st += [A.Declare(V("o4"), A.ObjectE([A.Pair(S(key(last)), S("early")), A.Single(V("o"), True, False), A.Pair(S(key(0)), S("late"))])),
                pr(A.Index(V("o4"), S(key(last)))), pr(A.Index(V("o4"), S(key(0))))] + counted("o4", V("o4"))
@@ -284,6 +285,147 @@ def elseif(n, taken):
     return [A.Declare(V("sel"), I(sel)), A.If(arms, [pr(S("else"))]), pr(S("after"))]
 
 
+def range_assign(n, src):
+    """xs[1:1+n] = <n items>: every element of the range is replaced, nothing else"""
+    xs = [j for j in range(n + 2)]
+    if src == "list":
+        ys, ye = [100 + j for j in range(n)], A.lst(*[I(100 + j) for j in range(n)])
+    else:
+        text = "".join("abc"[j % 3] for j in range(n))
+        ys, ye = list(text), S(text)
+    st = [A.Declare(V("xs"), A.lit(xs)), A.Declare(V("ys"), ye)]
+    if n > 0:
+        st += [A.Assign(A.RangeIndex(V("xs"), I(1), I(1 + n)), V("ys")), pr(V("xs")), A.Assign(A.RangeIndex(V("xs"), None, I(n)), A.RangeIndex(V("xs"), I(2), None)), pr(V("xs")),
+               A.Assign(A.RangeIndex(V("xs"), I(2), None), V("ys")), pr(V("xs"))]
+    st += [pr(S("length mismatch next")), A.Assign(A.RangeIndex(V("xs"), I(0), I(n + 1)), V("ys")), pr(S("WRONG"))]
+    return st
+
+
+HUGE = [2 ** 31 - 1, 2 ** 31, 2 ** 32 - 1, 2 ** 32, 2 ** 32 + 1, 2 ** 53, 2 ** 62, 2 ** 63 - 2, 2 ** 63 - 1]
+
+
+def huge_index(_n, h, form):
+    xs = lambda: V("xs")
+    st = [A.Declare(V("xs"), A.lst(I(1), I(2), I(3))), A.Declare(V("s"), S("abc")), A.Declare(V("h"), I(h)), pr(S("before"))]
+    e = {"read": lambda: pr(A.Index(xs(), I(h))), "read_var": lambda: pr(A.Index(xs(), V("h"))), "end": lambda: pr(A.RangeIndex(xs(), I(0), I(h))), "start": lambda: pr(A.RangeIndex(xs(), I(h), None)),
+         "str": lambda: pr(A.Index(V("s"), I(h))), "str_end": lambda: pr(A.RangeIndex(V("s"), I(1), V("h"))), "write": lambda: A.Assign(A.Index(xs(), I(h)), I(0)),
+         "range_write": lambda: A.Assign(A.RangeIndex(xs(), I(0), I(h)), A.lst(I(7), I(8), I(9))), "both": lambda: pr(A.RangeIndex(xs(), V("h"), V("h")))}[form]()
+    return st + [e, pr(S("WRONG"))]
+
+
+def obj_dup(n):
+    """a literal in which keys repeat (the later entry wins) and spreads overlap"""
+    half = n // 2 + 1
+    order = perm(n)
+    ents = [(key(j % half), I(pos)) for pos, j in enumerate(order)]
+    st = [A.Declare(V("o"), A.obj(*ents)), pr(V("o"))]
+    a = [(key(j), I(j)) for j in perm(half)]
+    b = [(key(j), I(1000 + j)) for j in perm(n) if j % 2 == 0]
+    st += [A.Declare(V("a"), A.obj(*a)), A.Declare(V("b"), A.obj(*b)), pr(A.ObjectE([A.Single(V("a"), True, False), A.Single(V("b"), True, False)])),
+           pr(A.ObjectE([A.Single(V("b"), True, False), A.Pair(S(key(0)), S("mid")), A.Single(V("a"), True, False)])),
+           pr(A.Bin("==", A.ObjectE([A.Single(V("a"), True, False), A.Single(V("b"), True, False), A.Single(V("a"), True, False)]), A.ObjectE([A.Single(V("b"), True, False), A.Single(V("a"), True, False)])))]
+    return st
+
+
+def pattern_dup(n, how):
+    names = ["v%d" % j for j in range(n)]
+    rep_at = {"last": n - 1, "first": 0, "mid": n // 2}[how] if n else 0
+    if n == 0:
+        return [pr(S("before")), A.Declare(A.lst(V("x"), V("x")), A.lst(I(1), I(2))), pr(S("WRONG"))]
+    pat = A.lst(*([V(v) for v in names] + [V(names[rep_at])]))
+    src = A.lst(*[I(j) for j in range(n + 1)])
+    return [pr(S("before")), A.Declare(pat, src), pr(S("WRONG"))]
+
+
+def interp_len(n):
+    """text of n characters (multi-byte ones included) followed / preceded / surrounded by a slot"""
+    text = "".join(("é" if j % 5 == 2 else ("✓" if j % 11 == 7 else "abcdefghij"[j % 10])) for j in range(n))
+    return [A.Declare(V("a"), S("<A>")), pr(A.IStr([text, V("a")])), pr(A.IStr([V("a"), text])), pr(A.IStr([text[: n // 2], V("a"), text[n // 2:], V("a")])),
+            pr(A.Call(A.Prop(A.IStr([text, V("a"), text]), "len", True), [])), pr(A.IStr([text, V("missing")])), pr(S("WRONG"))]
+
+
+def name_coincidence(_n):
+    """names that coincide with other names in scope-legal ways"""
+    return [A.FuncStmt("count", [V("xs")], False, [A.Declare(V("count"), I(0)), A.For(V("_"), V("xs"), [A.OpAssign("+", V("count"), I(1))]), A.Return(V("count"))]),
+            pr(A.call("count", A.lst(I(1), I(2)))), pr(A.call("count", A.lst())),
+            A.FuncStmt("same", [V("same")], False, [A.Return(A.Bin("+", V("same"), I(1)))]), pr(A.call("same", I(1))), pr(A.call("same", I(2))),
+            A.FuncStmt("outer", [], False, [A.FuncStmt("outer", [], False, [A.Return(S("inner outer"))]), A.Return(A.call("outer"))]), pr(A.call("outer")),
+            A.Declare(V("o"), A.obj(("o", I(1)), ("len", I(2)), ("type", I(3)), ("print", I(4)))), pr(A.Prop(V("o"), "o", False)), pr(A.Prop(V("o"), "len", False)), pr(A.Call(A.Prop(V("o"), "type", True), [])),
+            A.Block([A.Declare(V("print"), S("shadow")), A.Declare(V("len"), I(1)), A.Declare(V("type"), I(2)), A.Declare(V("this"), I(3)), pr_via("say", V("print")), pr_via("say", V("this"))]),
+            A.FuncStmt("rec", [V("n")], False, [A.If([(A.Bin("==", V("n"), I(0)), [A.Declare(V("rec"), S("local")), A.Return(V("rec"))])], None), A.Return(A.call("rec", A.Bin("-", V("n"), I(1))))]), pr(A.call("rec", I(3))),
+            A.For(V("i"), A.lst(I(1)), [A.For(V("i"), A.lst(I(2)), [pr(V("i"))]), pr(V("i"))]),
+            A.Declare(V("k"), S("k")), pr(A.ObjectE([A.Single(V("k"), False, False), A.Pair(V("k"), V("k"))]))]
+
+
+def pr_via(f, e):
+    return A.ExprStmt(A.call(f, e))
+
+
+def range_twice(n):
+    """the same range expression evaluated twice gives two independent containers"""
+    return [A.Declare(V("r1"), A.Range(I(0), I(n))), A.Declare(V("r2"), A.Range(I(0), I(n))), pr(A.Bin("===", V("r1"), V("r2"))), pr(A.Bin("==", V("r1"), V("r2")))] + \
+        ([A.Assign(A.Index(V("r1"), I(n - 1)), I(-1)), pr(A.Index(V("r2"), I(n - 1))), A.Declare(V("r3"), A.Range(I(0), I(n))), pr(A.Index(V("r3"), I(n - 1))), pr(A.Bin("==", V("r2"), V("r3"))),
+          pr(A.Bin("==", V("r1"), V("r3")))] if n > 0 else []) + \
+        [A.FuncStmt("mk", [], False, [A.Return(A.Range(I(3), I(3 + n)))]), A.Declare(V("m1"), A.call("mk")), A.Declare(V("m2"), A.call("mk")), pr(A.Bin("===", V("m1"), V("m2")))] + counted("m1", V("m1"))
+
+
+def elseif_dup(n):
+    """several arms test the same literal: the first one that matches runs"""
+    half = n // 2 + 1
+    arms = [(A.Bin("==", V("sel"), I(j % half)), [pr(S("arm %d" % j))]) for j in range(n + 1)]
+    st = [A.FuncStmt("pick", [V("sel")], False, [A.If(arms, [pr(S("else"))]), A.Return(V("sel"))])]
+    for sel in sorted({0, half - 1, half // 2, half}):
+        st.append(pr(A.call("pick", I(sel))))
+    return st
+
+
+def chain_error(n, kind):
+    """a left-to-right chain of n+1 operands in which exactly one `+` fails"""
+    k = {"type_mid": n // 2, "type_last": n, "type_first": 1, "overflow_first": 1, "overflow_last": n}[kind] if n else 0
+    ops = [I(1) for _ in range(n + 1)]
+    if n == 0:
+        return [pr(S("before")), pr(A.Bin("+", I(1), S("s"))), pr(S("WRONG"))]
+    if kind.startswith("type"):
+        ops[k] = S("s")
+    elif kind == "overflow_first":
+        ops[0] = I(2 ** 63 - 1)
+        ops[n] = I(-5)
+    else:
+        ops[0] = I(2 ** 63 - 1 - (n - 1))
+    e = ops[0]
+    for x in ops[1:]:
+        e = A.Bin("+", e, x)
+    return [pr(S("before")), pr(e), pr(S("WRONG"))]
+
+
+def deep_parens(n):
+    p = I(7)
+    for _ in range(n):
+        p = A.Paren(p)
+    q = A.lst(I(1))
+    for _ in range(n):
+        q = A.lst(q)
+    ix = V("q")
+    for _ in range(n):
+        ix = A.Index(ix, I(0))
+    blk = [pr(S("innermost"))]
+    for j in range(n):
+        blk = [A.Block(blk)] if j % 2 else [A.If([(A.Bool(True), blk)], None)]
+    return [pr(A.Bin("*", p, I(2))), A.Declare(V("q"), q), pr(A.Index(ix, I(0)))] + blk + [pr(S("after"))]
+
+
+def big_text(n, ch, phase, where):
+    """a long run of one multi-byte character, shifted by `phase` bytes, in a comment or in a string literal"""
+    run = ch * (n // len(ch.encode("utf-8")))
+    if where == "interp":
+        return [A.Declare(V("a"), S("<A>")), A.Declare(V("s"), A.IStr(["x" * phase + run, V("a"), "|", V("a")])), pr(A.Call(A.Prop(V("s"), "len", True), [])),
+                pr(A.RangeIndex(V("s"), I(len(("x" * phase + run).encode("utf-8"))), None)), pr(A.IStr(["x" * phase + run, V("nope")])), pr(S("WRONG"))]
+    if where == "literal":
+        return [A.Declare(V("s"), S("x" * phase + run)), pr(A.Call(A.Prop(V("s"), "len", True), [])), pr(A.Bin("==", A.RangeIndex(V("s"), None, I(phase)), S("x" * phase))),
+                pr(A.Bin("==", V("s"), A.Bin("+", S("x" * phase), S(run)))), pr(A.Bin("+", V("s"), A.Null())), pr(S("WRONG"))]
+    return [A.Declare(V("a"), I(1)), pr(V("a")), pr(A.Bin("+", V("a"), A.Null())), pr(S("WRONG"))]
+
+
 def chain_ops(n):
     def chain(op, first, rest):
         e = first
@@ -338,6 +480,13 @@ def many_names(n, end):
         st += [A.Declare(A.lst(V("fresh"), V("n%d" % (n - 1))), A.lst(I(1), I(2))), pr(S("WRONG"))]
     elif end == "undefined":
         st += [pr(V("n%d" % n)), pr(S("WRONG"))]
+    elif end == "interleaved":
+        # reads and writes at every scope size on the way up (names are declared in an order that is not alphabetical)
+        st = []
+        for j in range(n):
+            st.append(A.Declare(V("n%d" % j), I(j)))
+            st += [pr(A.Bin("+", A.Bin("+", V("n%d" % j), V("n%d" % (j // 2))), V("n0"))), A.OpAssign("+", V("n%d" % (j // 3)), I(100))]
+        st += [pr(V("n%d" % j)) for j in range(0, n, max(1, n // 8))]
     else:
         st += [A.Block([A.Declare(V("n%d" % j), I(-j)) for j in range(0, n, 3)] + [pr(A.call("total"))] + ([pr(V("n0"))] if n else []))]
     return st
@@ -347,7 +496,9 @@ def long_ident(n, end):
     name = ("v" + "abcdefghij_0123456789XYZ" * (n // 24 + 1))[: max(1, n)]
     other = name[:-1] + ("y" if name[-1] != "y" else "z") if len(name) > 1 else "q"
     st = [A.Declare(V(name), I(5)), pr(V(name)), A.OpAssign("+", V(name), I(1)), pr(V(name)), A.FuncStmt(name + "_f", [V(name)], False, [A.Return(V(name))]),
-          pr(A.call(name + "_f", S("arg")))]
+          pr(A.call(name + "_f", S("arg"))),
+          A.Declare(V("ob"), A.ObjectE([A.Single(V(name), False, False), A.Pair(S(other), I(-1))])), pr(A.Prop(V("ob"), name, False)), pr(A.Index(V("ob"), S(name))), pr(A.Prop(V("ob"), other, False)),
+          A.Assign(A.Prop(V("ob"), name, False), I(77)), pr(A.Index(V("ob"), S(name))), A.Declare(A.ObjectE([A.Single(V(name + "_f" if False else other), False, False)]), V("ob")), pr(V(other)), pr(V("ob"))]
     if end == "undefined":
         st += [pr(V(other)), pr(S("WRONG"))]
     elif end == "redeclare":
@@ -371,11 +522,11 @@ def many_stmts(n):
 
 
 def eq_large(n):
-    a = [j * 3 for j in range(n)]
+    a = [[j] if j % 3 == 1 else ({"k": j} if j % 3 == 2 else j * 3) for j in range(n)]
     st = [A.Declare(V("a"), A.lit(a)), A.Declare(V("b"), A.lit(a)), pr(A.Bin("==", V("a"), V("b"))), pr(A.Bin("!=", V("a"), V("b"))), pr(A.Bin("===", V("a"), V("b"))),
           pr(A.Bin("==", V("a"), A.Bin("+", V("b"), A.lst(I(0)))))]
     if n > 0:
-        st += [A.Assign(A.Index(V("b"), I(n - 1)), I(-1)), pr(A.Bin("==", V("a"), V("b"))), A.Assign(A.Index(V("b"), I(n - 1)), I(a[-1])), pr(A.Bin("==", V("a"), V("b"))),
+        st += [A.Assign(A.Index(V("b"), I(n - 1)), I(-1)), pr(A.Bin("==", V("a"), V("b"))), A.Assign(A.Index(V("b"), I(n - 1)), A.lit(a[-1])), pr(A.Bin("==", V("a"), V("b"))),
                A.Assign(A.Index(V("b"), I(n // 2)), S("s")), pr(S("mixed next")), pr(A.Bin("==", V("a"), V("b")))]
     o = dict((key(j), j) for j in range(n))
     st2 = [A.Declare(V("p"), A.obj(*[(key(j), I(j)) for j in perm(n)])), A.Declare(V("q"), A.lit(o)), pr(A.Bin("==", V("p"), V("q")))]
@@ -434,6 +585,14 @@ def special_bytes(_n):
         st += [A.Declare(V(n), S(v)), pr(A.Call(A.Prop(V(n), "len", True), [])), pr(A.Bin("==", A.Bin("+", V(n), V(n)), S(v + v))), pr(A.Bin("==", V(n), S(v + "x"))),
                pr(A.Bin("==", A.RangeIndex(A.Paren(A.Bin("+", A.Bin("+", S("[é"), V(n)), S("]"))), I(3), I(3 + nb)), V(n))),
                pr(A.Index(A.obj((v, I(j)), (v + v, I(-j))), V(n))), pr(A.IStr(["<", V(n), ">"])), pr(A.lst(V(n), A.obj((v, V(n)))))] + counted(n, V(n))
+    # all values are distinct: no two compare equal, alone or inside containers; a trailing / leading NUL or space matters
+    st += [A.Declare(V("all"), A.lst(*[V("s%d" % j) for j in range(len(vals))])), A.Declare(V("eqs"), I(0))]
+    st += [A.For(A.lst(V("i"), V("p")), V("all"), [A.For(A.lst(V("j"), V("q")), V("all"), [
+        A.If([(A.Bin("==", V("p"), V("q")), [A.OpAssign("+", V("eqs"), I(1))])], None),
+        A.If([(A.Bin("==", A.lst(V("p")), A.lst(V("q"))), [A.OpAssign("+", V("eqs"), I(1))])], None)])]), pr(V("eqs"))]
+    for base in ("", "a", "ab", "abcdefg", "abcdefgh", "abcdefghi", "é"):
+        for extra in ("\x00", " ", "\x00\x00"):
+            st += [pr(A.Bin("==", S(base), S(base + extra))), pr(A.Bin("==", S(extra + base), S(base))), pr(A.Bin("!=", A.obj(("k", S(base + extra))), A.obj(("k", S(base)))))]
     return st
 
 
@@ -492,19 +651,32 @@ ENTRIES = {
     "params": ("C13 C14", params, [()], 257, {}),
     "params_arity": ("C13 C14 C17 C16", params_arity, [(1,), (-1,)], 257, {"err": True}),
     "pattern": ("C13 C20", pattern, [()], 300, {"err": True}),
-    "nest_list": ("C10 C05 C08 C02", nest_list, [()], 33, {}),
-    "nest_blocks": ("C04 C20 C07", nest_blocks, [()], 33, {}),
+    "nest_list": ("C10 C05 C08 C02 C19", nest_list, [()], 257, {"model_kw": {"max_nest": 600}}),
+    "nest_blocks": ("C04 C20 C07", nest_blocks, [()], 129, {}),
     "closures": ("C04 C05", closures, [()], 513, {}),
     "closure_chain": ("C04 C14", closure_chain, [()], 33, {}),
     "recursion": ("C07 C04 C02", recursion, [()], 65, {"model_kw": {"max_depth": 90}}),
     "recursion_error": ("C17 C18 C07", recursion_error, [()], 65, {"err": True, "model_kw": {"max_depth": 90}}),
     "loop_iter": ("C07 C06", loop_iter, [()], 2049, {}),
     "elseif": ("C07 C08", elseif, [("first",), ("last",), ("middle",), ("none",)], 129, {}),
+    "elseif_dup": ("C07 C08", elseif_dup, [()], 129, {}),
+    "range_assign": ("C11 C05", range_assign, [("list",), ("str",)], 1025, {"err": True}),
+    "huge_index": ("C11 C17 C18 C16 C06", huge_index, [(h, f) for h in HUGE for f in ("read", "read_var", "end", "start", "str", "str_end", "write", "range_write", "both")], 0, {"err": True}),
+    "obj_dup": ("C12 C19", obj_dup, [()], 513, {}),
+    "pattern_dup": ("C13 C20", pattern_dup, [("last",), ("first",), ("mid",)], 300, {"err": True}),
+    "interp_len": ("C15 C03 C02", interp_len, [()], -1, {"err": True}),
+    "name_coincidence": ("C20 C04", name_coincidence, [()], 0, {}),
+    "big_text_interp": ("C15 C03", big_text, [(c, ph, "interp") for c in ("é", "😀", "a") for ph in (0, 1)], -70000, {"err": True}),
+    "chain_error": ("C08 C16 C18 C06 C17", chain_error, [("type_mid",), ("type_last",), ("type_first",), ("overflow_first",), ("overflow_last",)], 129, {"err": True}),
+    "deep_parens": ("C08 C03 C07 C04", deep_parens, [()], 257, {"model_kw": {"max_nest": 600}}),
+    "big_text_comment": ("C09 C03 C15 C18", big_text, [(c, ph, "comment") for c in ("é", "✓", "😀") for ph in range(len(c.encode("utf-8")))], -70000, {"err": True, "bigtext": True}),
+    "big_text_literal": ("C15 C03 C09 C11", big_text, [(c, ph, "literal") for c in ("é", "✓", "😀") for ph in range(len(c.encode("utf-8")))], -40000, {"err": True}),
     "chain_ops": ("C08 C06 C16", chain_ops, [()], 65, {}),
     "postfix_chain": ("C08 C14", postfix_chain, [()], 17, {}),
-    "int_ladder": ("C06 C16", int_ladder, [()], 0, {"err": True}),
-    "many_names": ("C20 C04", many_names, [("block",), ("redeclare",), ("redeclare_last",), ("undefined",)], 513, {"err": None}),
-    "long_ident": ("C03 C20 C09 C17", long_ident, [("ok",), ("undefined",), ("redeclare",)], 2049, {"err": None}),
+    "int_ladder": ("C06 C16 C19", int_ladder, [()], 0, {"err": True}),
+    "many_names": ("C20 C04", many_names, [("block",), ("redeclare",), ("redeclare_last",), ("undefined",), ("interleaved",)], 513, {"err": None}),
+    "range_twice": ("C05 C11 C07", range_twice, [()], 1025, {}),
+    "long_ident": ("C03 C20 C09 C17 C04 C12", long_ident, [("ok",), ("undefined",), ("redeclare",)], 2049, {"err": None}),
     "far_error_lines": ("C18 C17 C09 C03", far_error, [("binop",), ("undefined",), ("index",), ("call",)], 70000, {"err": True, "far": "lines"}),
     "far_error_cols": ("C18 C17 C09 C03", far_error, [("binop",), ("undefined",), ("index",), ("call",)], 70000, {"err": True, "far": "cols"}),
     "many_stmts": ("C09 C18 C01 C03", many_stmts, [()], 2049, {"err": True, "semi": True}),
@@ -528,6 +700,10 @@ def sizes_for(name, tier):
         return FAR if tier == "thorough" else [0, 255, 256, 257, 65535, 65536, 65537]
     if mx == 0:
         return [0]
+    if mx == -1:
+        return list(range(0, 200)) + [255, 256, 257, 320, 511, 512, 513] if tier == "quick" else list(range(0, 1100))
+    if mx < 0:
+        return [-mx] if tier == "quick" else [-mx, -mx // 2 + 1, -mx + 4099]
     ladder = THOROUGH if tier == "thorough" else QUICK
     return [n for n in ladder if n <= mx]
 
@@ -543,7 +719,7 @@ def descs_for(prop, tier):
         if prop not in ("C01", "C02") and prop not in props.split():
             continue
         sizes = list(sizes_for(name, tier))
-        if mx > 0:
+        if mx > 1:
             # plus sizes drawn from VERIF_SEED, so that different seeds probe different thresholds
             sizes += [rng.randrange(0, mx + 1) for _ in range(4 if tier == "quick" else 24)]
         for n in sorted(set(sizes)):
@@ -555,15 +731,20 @@ def descs_for(prop, tier):
 
 
 def build_case(desc):
+    import sys
+    if sys.getrecursionlimit() < 20000:
+        sys.setrecursionlimit(20000)       # nesting ladders go to depth 257; printer and model recurse a few frames per level
     _, name, n, v, prop = desc
     props, fn, variants, mx, opt = ENTRIES[name]
     prog = fn(n, *v)
     case = {"prog": prog, "tags": ["scale:%s" % name, "scale-n:%d" % n],
-            "model_kw": dict({"fuel": 3000000}, **opt.get("model_kw", {})), "meta": {"scale": name, "n": n, "variant": v}}
+            "model_kw": dict({"fuel": 3000000, "max_size": 1 << 20, "max_out": 1 << 22}, **opt.get("model_kw", {})), "meta": {"scale": name, "n": n, "variant": v}}
     if opt.get("err") is True:
         case["expect_error"] = True
     if prop in DIAG_PROPS:
         case.update({"check_pos": True, "check_atoms": True, "check_diag": True})
+    if opt.get("bigtext"):
+        case["layout"] = P.Layout(lead="#" + "x" * v[1] + v[0] * (n // len(v[0].encode("utf-8"))) + "\n")
     if opt.get("far") == "lines":
         case["layout"] = P.Layout(lead=("\n" if n % 2 else "\r\n") * n if n < 1000 else "\n" * n)
     elif opt.get("far") == "cols":
